@@ -145,15 +145,11 @@ def analyse(ctx, name, removing):
             owner = lp.self_obj
             con0 = f"{lp.func.qualname}"
             it = lp.node.iter
-            # order
-            ok_order = isinstance(it, ast.Call) and isinstance(it.func, ast.Name) and it.func.id == "sorted" and len(it.args) == 1
-            rev = False
-            if ok_order:
-                for kw in it.keywords:
-                    if kw.arg == "reverse" and isinstance(kw.value, ast.Constant):
-                        rev = bool(kw.value.value)
-                    elif kw.arg is not None:
-                        ok_order = False
+            # order: decided on the value the loop iterates over (`sorted(...)` written at the loop, bound to a local first, or
+            # handed to a shared helper as an argument)
+            from ..interp import OrderedUnk, CollV
+            ok_order = isinstance(lp.coll, (OrderedUnk, CollV)) and lp.coll.reverse is not None
+            rev = bool(lp.coll.reverse) if ok_order else False
             ctx.instance(f"{con0}:order")
             if not ok_order or rev != removing:
                 ctx.violation(f"{con0}:step-order", lp.loc, f"{name}: steps must be processed in {'descending' if removing else 'ascending'} order "
